@@ -42,6 +42,10 @@ pub enum CallSize {
 #[derive(Clone, Debug, Serialize, Deserialize)]
 pub struct Case {
     pub server: bool,
+    /// the session's OWN configured window (what it announces; must not influence what it
+    /// honours): 0 = the default configuration
+    #[serde(default)]
+    pub own: u32,
     pub w: u32,
     pub prefix: Vec<Item>,
     pub body: Vec<Item>,
@@ -115,7 +119,7 @@ pub fn eval(c: &Case) -> Verdict {
     }
     let mut outdec = OutDec::new();
     let mut sess = if c.server {
-        let (s, init) = match ServerSession::new(ServerSessionConfig::new()) {
+        let (s, init) = match ServerSession::new({ let mut cfg = ServerSessionConfig::new(); if c.own != 0 { cfg.window_ack_size = c.own; } cfg }) {
             Ok(x) => x,
             Err(e) => vfail!("ServerSession::new failed: {:?}", e),
         };
@@ -126,7 +130,7 @@ pub fn eval(c: &Case) -> Verdict {
         }
         Sess::S(s)
     } else {
-        let (s, init) = match ClientSession::new(ClientSessionConfig::new()) {
+        let (s, init) = match ClientSession::new({ let mut cfg = ClientSessionConfig::new(); if c.own != 0 { cfg.window_ack_size = c.own; } cfg }) {
             Ok(x) => x,
             Err(e) => vfail!("ClientSession::new failed: {:?}", e),
         };
@@ -324,13 +328,14 @@ fn case_for_w(wstrat: BoxedStrategy<u32>) -> BoxedStrategy<Case> {
             let body_item = prop_oneof![12 => item(w), 1 => rean];
             (
                 Just(server),
+                prop_oneof![3 => Just(0u32), 1 => Just(w), 1 => Just((w / 2).max(1)), 1 => Just(w.saturating_mul(2)), 1 => gen::pick(&[1u32, 100, 1000, 65_536])],
                 Just(w),
                 proptest::collection::vec(item(w.min(400)), 0..4),
                 proptest::collection::vec(body_item, 2..30),
                 proptest::collection::vec(call_size(), 0..60),
             )
         })
-        .prop_map(|(server, w, prefix, body, calls)| Case { server, w, prefix, body, calls })
+        .prop_map(|(server, own, w, prefix, body, calls)| Case { server, own, w, prefix, body, calls })
         .boxed()
 }
 
